@@ -414,7 +414,7 @@ def parse_falsifier(out, g):
                     if step.get('stepType') == 'assignment' and not step.get('hidden'):
                         lhs = step.get('lhs', '')
                         fn = (step.get('sourceLocation') or {}).get('function', '')
-                        if (fn == g.entry or lhs.startswith('in_') or lhs.startswith('__g')) and '__dfcc' not in lhs \
+                        if (fn == g.entry or lhs.startswith('in_') or lhs.startswith('__g') or lhs.startswith('__skel')) and '__dfcc' not in lhs \
                                 and not lhs.startswith('__g_ntop') and not lhs.startswith('return_value'):
                             flatten(lhs, step.get('value', {}), vals)
                     if step.get('stepType') == 'failure' and not line:
@@ -451,7 +451,7 @@ def extract_trace(cmd, failed, g):
                     lhs = step.get('lhs', '')
                     fn = (step.get('sourceLocation') or {}).get('function', '')
                     v = step.get('value', {})
-                    if (fn == g.entry or lhs.startswith('in_') or lhs.startswith('__g')) and '__dfcc' not in lhs \
+                    if (fn == g.entry or lhs.startswith('in_') or lhs.startswith('__g') or lhs.startswith('__skel')) and '__dfcc' not in lhs \
                             and not lhs.startswith('__g_ntop') and not lhs.startswith('return_value'):
                         flatten(lhs, v, vals)
     return {'property': name, 'assignments': vals}
